@@ -194,6 +194,28 @@ Proof.
   eexists. split; [exact R|]. split; [reflexivity|]. split; [vm_compute; reflexivity|]. vm_compute. auto.
 Qed.
 
+(* ---- block acquisition has no time bound: from the moment a registration is inside the exclusive section, for
+   EVERY list of steps of any length that contains neither its failure nor its release, it is still inside, the
+   writer flag is set, no block is held and no block can be acquired — there is no number of steps (no "time-out")
+   after which a block would be granted while the synchronisation is still going on ---- *)
+Theorem C08_no_block_granted_during_synchronisation : forall l s s' q, reachable s -> in_exclusive s q ->
+  steps s l = Some s' -> ~ In (APFail q) l -> ~ In (APRelease q) l ->
+  in_exclusive s' q /\ writer s' = true /\ readers s' = 0 /\ (forall g, step s' (AGAcquire g) = None).
+Proof. exact no_block_during_section. Qed.
+Print Assumptions C08_no_block_granted_during_synchronisation.
+
+Example C08_example_slow_synchronisation : exists s s', reachable s /\ in_exclusive s "p" /\
+  steps s [APArrive "q"; APSnapshot "p"; APArrive "r"; APActivate "p"] = Some s' /\ step s' (AGAcquire "g") = None.
+Proof.
+  destruct (steps init [APArrive "p"; APAcquire "p"]) as [s|] eqn:E; [|vm_compute in E; discriminate].
+  exists s. assert (R : reachable s) by (eexists; exact E). vm_compute in E. inversion E; subst s.
+  eexists. split; [exact R|]. split; [exists PHoldW; vm_compute; auto|]. split; vm_compute; reflexivity.
+Qed.
+(* a block logged as acquired between the entry and the return of SyncFn is rejected by the replay *)
+Example C08_rejects_block_during_synchronisation :
+  accepts [ LSyncEnter "p" []; LSyncRecv "p" []; LBlockAcq "g"; LCreateRet "g" "c"; LStore "g" "c"; LBlockRel "g"; LSyncRet "p" true ] = false.
+Proof. vm_compute. reflexivity. Qed.
+
 (* ---- an abandoned waiter: a plugin goes away while its registration waits behind sync blocks.  Giving the
    registration up changes nothing but the waiter's own program counter — readers, writer, mutex, everybody
    else are as if it had never asked —, blocks are granted as before, and once the last block is released every
